@@ -10,6 +10,6 @@ s=open(sys.argv[1]).read(); n=re.subn(sys.argv[3], sys.argv[4], s, count=int(__i
 assert n[1]>=1, "pattern not found"
 open(sys.argv[2],'w').write(n[0])
 PY
-(cd $tmp && diff -u a/$file b/$file > /verif/mutants/$name.diff || true)
+(cd $tmp && diff -u a/$file b/$file > ${OUTDIR:-/verif/mutants}/$name.diff || true)
 rm -rf $tmp
-wc -l /verif/mutants/$name.diff
+wc -l ${OUTDIR:-/verif/mutants}/$name.diff
